@@ -113,7 +113,15 @@ def run_layout_case(ctx, idx):
                           "type": "file", "features": None, "mapping": "same",
                           "paths": [str(tmp / "origin.rtdc"), "origin.rtdc"]})
         pin = tmp / "input.rtdc"
-        desc = h5layout.write_layout(pin, model, rng, version=dclab.__version__,
+        # the file's version chain: recorded with Shape-In, possibly processed by an old dclab
+        # before the current one wrote it (only the last entry says who wrote the data)
+        vers = dclab.__version__
+        if rng.random() < 0.5:
+            vers = str(rng.choice(["0.35.0", "0.36.1", "0.46.3", "0.48.1"])) + " | dclab " + vers
+            ctx.count("inputs_with_old_dclab_entry_in_version_chain")
+            if rng.random() < 0.7 and "volume" not in model["features"]:
+                model["features"]["volume"] = rng.uniform(100, 4000, model["n"])
+        desc = h5layout.write_layout(pin, model, rng, version=vers,
                                      internal_basin=internal, extra_basins=extra, **opts)
         case = {"model": gd.describe(model), "layout": desc["options"],
                 "storages": sorted(set(desc["storage"].values()))}
